@@ -292,14 +292,20 @@ CODEC_ASSUME = [
 ]
 
 SPECS["C15"] = {
-    "engine": "codec", "flavour": "asan", "kind": "C15", "nt": "C15.nt", "level": "exploration",
-    "eval_counter": ["log.roundtrips", "log.truncations", "log.alterations", "crc.checks"],
-    "rule": "cases = rapidcheck-generated (record lengths around block/fragment boundaries and random up to 200 KiB (1 MiB thorough), optional prefix log for the reuse path, "
-            "truncation offsets, byte alterations: bit flips, 0x00/0xFF, multi-byte xor, zeroed 512 B sector) and CRC cases (length sweep x alignment, table-driven path then hardware path after ldb_crc32c_init); "
-            "oracle: bytes equal the reference encoder, both decoders return the records, a cut yields exactly the records wholly before it with no report, alterations yield a subsequence, later intact blocks are delivered and any loss is reported; "
-            "non-trivial = a log longer than one block / a truncation sweep / an alteration that changed a byte / a CRC sweep; distinct by case hash",
-    "quick_count": 1500, "thorough_count": 1000000, "quick_budget": 40, "thorough_budget": 600,
-    "assumptions": CODEC_ASSUME, "run": generic_run,
+    "level": "exploration", "quick_budget": 55, "thorough_budget": 600, "assumptions": CODEC_ASSUME + COMMON_ASSUME, "run": generic_run,
+    "parts": [
+        {"name": "codec", "engine": "codec", "flavour": "asan", "kind": "C15", "nt": "C15.nt", "budget_share": 0.7,
+         "eval_counter": ["log.roundtrips", "log.truncations", "log.alterations", "crc.checks"],
+         "rule": "cases = rapidcheck-generated (record lengths around block/fragment boundaries and random up to 200 KiB (1 MiB thorough), optional prefix log for the reuse path, "
+                 "truncation offsets, byte alterations: bit flips, 0x00/0xFF, multi-byte xor, zeroed 512 B sector) and CRC cases (length sweep x alignment, table-driven path then hardware path after ldb_crc32c_init); "
+                 "oracle: bytes equal the reference encoder, both decoders return the records, a cut yields exactly the records wholly before it with no report, alterations yield a subsequence, later intact blocks are delivered and any loss is reported; "
+                 "non-trivial = a log longer than one block / a truncation sweep / an alteration that changed a byte / a CRC sweep; distinct by case hash",
+         "quick_count": 1500, "thorough_count": 1000000},
+        {"name": "file", "engine": "hist", "flavour": "asan", "kind": "histC15f", "nt": "C15.nt", "eval_counter": "cases", "quick_count": 100000, "thorough_count": 10000000, "budget_share": 0.3, "seed_offset": 1515,
+         "rule": "the same framing through the real file layer: write-heavy histories (values 0 B..70 KiB, multi-block batches) with frequent reopen, with and without log reuse (appends at arbitrary starting offsets), "
+                 "while every intercepted read/pread/write may return a short count or EINTR (legal POSIX outcomes; vfio.h); oracle: everything written reads back identically after each recovery (model map); "
+                 "non-trivial = a reopen that recovered a log under perturbed reads; distinct by case hash"},
+    ],
 }
 SPECS["C16"] = {
     "engine": "codec", "flavour": "asan", "kind": "C16", "nt": "C16.nt", "level": "exploration",
